@@ -311,9 +311,9 @@ theorem resolveDeps_no_called (cid : CtxId) (isAsync : Bool) (t : TaskId) (ds : 
 
 
 theorem runBody_rel (R : Ctx → Ctx → Prop) (hrefl : ∀ x, R x x)
-    (htrans : ∀ x y z, R x y → R y z → R x z) (cid : CtxId)
-    (hop : ∀ x op, R x (runBodyOp cid x op).1) :
-    ∀ ops x, R x (runBody cid x ops).1 := by
+    (htrans : ∀ x y z, R x y → R y z → R x z) (cid : CtxId) (cur : Option CtxId)
+    (hop : ∀ x op, R x (runBodyOp cid cur x op).1) :
+    ∀ ops x, R x (runBody cid cur x ops).1 := by
   intro ops
   induction ops with
   | nil => intro x; exact hrefl x
@@ -323,18 +323,18 @@ theorem runBody_rel (R : Ctx → Ctx → Prop) (hrefl : ∀ x, R x x)
     exact htrans _ _ _ (hop x op) (ih _)
 
 theorem runTeardown_rel (R : Ctx → Ctx → Prop) (hrefl : ∀ x, R x x)
-    (htrans : ∀ x y z, R x y → R y z → R x z) (cid : CtxId)
-    (hop : ∀ x op, R x (runBodyOp cid x op).1) (be : BlockEnd) :
-    ∀ st x, R x (runTeardown cid be st x).1 := by
+    (htrans : ∀ x y z, R x y → R y z → R x z) (cid : CtxId) (cur : Option CtxId)
+    (hop : ∀ x op, R x (runBodyOp cid cur x op).1) (be : BlockEnd) :
+    ∀ st x, R x (runTeardown cid cur be st x).1 := by
   intro st x
-  fun_induction runTeardown cid be st x with
+  fun_induction runTeardown cid cur be st x with
   | case1 x => exact hrefl x
   | case2 st x id passExc isAsync body regs raises x' bodyOut hb stack' x'' tr excs hr ih =>
     have hs : stack' = regs.reverse ++ st := by simp [stack']
     rw [hs] at hr ih
     rw [hr] at ih
     simp only [hr]
-    have h1 := runBody_rel R hrefl htrans cid hop body x
+    have h1 := runBody_rel R hrefl htrans cid cur hop body x
     rw [hb] at h1
     exact htrans _ _ _ h1 ih
 
@@ -435,16 +435,16 @@ theorem ctxGenFinish_frame (cid : CtxId) (x : Ctx) (fid : Nat) (next : Option Ta
       · exact Frame.trans (y := { x with pending := x.pending.filter fun q => q.fid ≠ fid })
           ⟨rfl, rfl, rfl, rfl⟩ ((storeGenerated_frame _ _ _ _).trans (resumeWaiters_frame _ _ _))
 
-theorem runBodyOp_frame (cid : CtxId) (x : Ctx) (op : BodyOp) : Frame x (runBodyOp cid x op).1 := by
+theorem runBodyOp_frame (cid : CtxId) (cur : Option CtxId) (x : Ctx) (op : BodyOp) : Frame x (runBodyOp cid cur x op).1 := by
   cases op with
   | add => exact ctxAdd_frame _ _ _
   | addFactory => exact ctxAddFactory_frame _ _ _
   | getNowait => exact ctxGetNowait_frame _ _ _ _
   | current => exact Frame.refl x
 
-theorem runTeardown_frame (cid : CtxId) (be : BlockEnd) (st : List Cb) (x : Ctx) :
-    Frame x (runTeardown cid be st x).1 :=
-  runTeardown_rel Frame Frame.refl (fun _ _ _ => Frame.trans) cid (runBodyOp_frame cid) be st x
+theorem runTeardown_frame (cid : CtxId) (cur : Option CtxId) (be : BlockEnd) (st : List Cb) (x : Ctx) :
+    Frame x (runTeardown cid cur be st x).1 :=
+  runTeardown_rel Frame Frame.refl (fun _ _ _ => Frame.trans) cid cur (runBodyOp_frame cid cur) be st x
 
 theorem depLookup_frame (cid : CtxId) (isAsync : Bool) (t : TaskId) (x : Ctx) (d : Dep) :
     Frame x (depLookup cid isAsync t x d).1 := by
@@ -525,12 +525,12 @@ theorem step_enter_eq (w : World) (t : TaskId) (c : CtxId) (x : Ctx)
       simp [step, hx, hs, hpar, enteredCtx, hq]
 
 /-- The context `c` after its block was left: teardown callbacks run, state `closed`. -/
-def exitedCtx (c : CtxId) (be : BlockEnd) (x : Ctx) : Ctx :=
-  { (runTeardown c be (effStack be x.tds) { x with state := .closing, tds := [] }).1 with state := .closed }
+def exitedCtx (c : CtxId) (cur : Option CtxId) (be : BlockEnd) (x : Ctx) : Ctx :=
+  { (runTeardown c cur be (effStack be x.tds) { x with state := .closing, tds := [] }).1 with state := .closed }
 
 theorem step_exit_eq (w : World) (t : TaskId) (c : CtxId) (be : BlockEnd) (x : Ctx)
     (hx : w.ctx? c = some x) (hs : x.state = .opened) :
-    ∃ w2, ChildrenUpd ((w.setCtx c (exitedCtx c be x)).setCur t (x.token.getD none)) w2 ∧
+    ∃ w2, ChildrenUpd ((w.setCtx c (exitedCtx c (w.curOf t) be x)).setCur t (x.token.getD none)) w2 ∧
       (step w (.exit t c be)).1 = w2 := by
   refine ⟨_, removeChild_upd _ x.parent c, ?_⟩
   simp [step, hx, hs, exitedCtx]
@@ -661,14 +661,14 @@ theorem step_enter_ctx (w : World) (t : TaskId) (c : CtxId) (x : Ctx)
 
 theorem step_exit_ctx (w : World) (t : TaskId) (c : CtxId) (be : BlockEnd) (x : Ctx)
     (hx : w.ctx? c = some x) (hs : x.state = .opened) :
-    ∃ ch, (step w (.exit t c be)).1.ctx? c = some { exitedCtx c be x with children := ch } := by
+    ∃ ch, (step w (.exit t c be)).1.ctx? c = some { exitedCtx c (w.curOf t) be x with children := ch } := by
   obtain ⟨w2, hu, he⟩ := step_exit_eq w t c be x hx hs
   rw [he]
   exact hu.ctx?_some c _ (by rw [World.ctx?_setCur]; exact World.ctx?_setCtx_same _ _ _)
 
-theorem exitedCtx_token (c : CtxId) (be : BlockEnd) (x : Ctx) :
-    (exitedCtx c be x).token = x.token ∧ (exitedCtx c be x).parent = x.parent :=
-  ⟨(runTeardown_frame c be (effStack be x.tds) _).2.2.1, (runTeardown_frame c be (effStack be x.tds) _).1⟩
+theorem exitedCtx_token (c : CtxId) (cur : Option CtxId) (be : BlockEnd) (x : Ctx) :
+    (exitedCtx c cur be x).token = x.token ∧ (exitedCtx c cur be x).parent = x.parent :=
+  ⟨(runTeardown_frame c cur be (effStack be x.tds) _).2.2.1, (runTeardown_frame c cur be (effStack be x.tds) _).1⟩
 
 /-- Apart from entering an inactive context and leaving an open one, no operation touches the
 parent, state or token of an existing context. -/
@@ -1080,18 +1080,18 @@ theorem KInv.ctxGenFinish {x : Ctx} (h : KInv x) (cid : CtxId) (fid : Nat) (next
       simp only [ne_eq, decide_not, Bool.not_eq_eq_eq_not, Bool.not_true, decide_eq_false_iff_not] at this
       exact this (hpf.trans (hg2.trans h0))
 
-theorem KInv.runBodyOp {x : Ctx} (h : KInv x) (cid : CtxId) (op : BodyOp) :
-    KInv (runBodyOp cid x op).1 := by
+theorem KInv.runBodyOp {x : Ctx} (h : KInv x) (cid : CtxId) (cur : Option CtxId) (op : BodyOp) :
+    KInv (runBodyOp cid cur x op).1 := by
   cases op with
   | add => exact h.ctxAdd _ _
   | addFactory => exact h.ctxAddFactory _ _
   | getNowait => exact h.ctxGetNowait _ _ _
   | current => exact h
 
-theorem KInv.runTeardown {x : Ctx} (h : KInv x) (cid : CtxId) (be : BlockEnd) (st : List Cb) :
-    KInv (runTeardown cid be st x).1 :=
-  runTeardown_rel (fun x y => KInv x → KInv y) (fun _ h => h) (fun _ _ _ h1 h2 h => h2 (h1 h)) cid
-    (fun _ op h => h.runBodyOp cid op) be st x h
+theorem KInv.runTeardown {x : Ctx} (h : KInv x) (cid : CtxId) (cur : Option CtxId) (be : BlockEnd) (st : List Cb) :
+    KInv (runTeardown cid cur be st x).1 :=
+  runTeardown_rel (fun x y => KInv x → KInv y) (fun _ h => h) (fun _ _ _ h1 h2 h => h2 (h1 h)) cid cur
+    (fun _ op h => h.runBodyOp cid cur op) be st x h
 
 theorem KInv.resolveDeps (cid : CtxId) (isAsync : Bool) (t : TaskId) (ds : List Dep) :
     ∀ {x : Ctx}, KInv x → KInv (resolveDeps cid isAsync t x ds).1 := by
@@ -1167,10 +1167,10 @@ theorem WInv.step {w : World} (h : WInv w) (op : Op) : WInv (step w op).1 := by
     exact this
   · obtain ⟨w2, hu, he⟩ := step_exit_eq w t c be x hx hs
     rw [he]
-    refine WInv.childrenUpd (w1 := (w.setCtx c (exitedCtx c be x)).setCur t (x.token.getD none)) ?_ hu
-    have hk : KInv (exitedCtx c be x) :=
+    refine WInv.childrenUpd (w1 := (w.setCtx c (exitedCtx c (w.curOf t) be x)).setCur t (x.token.getD none)) ?_ hu
+    have hk : KInv (exitedCtx c (w.curOf t) be x) :=
       (KInv.runTeardown (x := { x with state := .closing, tds := [] })
-        ((h c x hx).congr rfl rfl rfl rfl) c be (effStack be x.tds)).congr rfl rfl rfl rfl
+        ((h c x hx).congr rfl rfl rfl rfl) c (w.curOf t) be (effStack be x.tds)).congr rfl rfl rfl rfl
     exact h.setCtx c _ hk
   · exact h
 
